@@ -259,9 +259,11 @@ func (matrix *SparseIntMatrix) T() Matrix {
     tmp1 : matrix.tmp2,
     tmp2 : matrix.tmp1 }
   for k1, value := range matrix.values.values {
-    // transform indices so that iterators operate correctly
-    i1, j1 := matrix.ij(k1)
-    k2 := m.index(j1, i1)
+    // transform indices so that iterators operate correctly, the
+    // storage may also contain elements that are outside of a slice
+    i1 := k1/matrix.colMax
+    j1 := k1%matrix.colMax
+    k2 := j1*matrix.rowMax + i1
     m.values.values[k2] = value
     m.values.indexInsert(k2)
   }
